@@ -147,6 +147,20 @@ mut("stack_max_ignores_last_node", ["C09"], "calAndSetStackSize/",
 # ---- C01 (name resolution order)
 mut("leaf_variable_before_constant", ["C01"], "parser.setLeafNodeParsers/post/resolution-order",
     [("parser.go", "\t\tp.parseInt, p.parseStr, p.parseConst, p.parseVariable, p.parseUnknownVariable}", "\t\tp.parseInt, p.parseStr, p.parseVariable, p.parseConst, p.parseUnknownVariable}")], "a name that is both a constant and a variable resolves to the variable")
+# ---- C01 / C03 (short-circuit pass)
+mut("sc_and_operand_jumps_on_true", ["C03"], "calAndSetShortCircuit/",
+    [("compiler.go", "\t\tcase isAndOpNode(p):\n\t\t\tflag |= scIfFalse\n\t\tcase isOrOpNode(p):\n\t\t\tflag |= scIfTrue\n\t\tdefault:\n\t\t\tf[i] = i",
+      "\t\tcase isAndOpNode(p):\n\t\t\tflag |= scIfTrue\n\t\tcase isOrOpNode(p):\n\t\t\tflag |= scIfTrue\n\t\tdefault:\n\t\t\tf[i] = i")], "an operand of and short-circuits on true")
+mut("sc_climb_on_any_common_bit", ["C01"], "calAndSetShortCircuit/",
+    [("compiler.go", "\t\tfor p.flag&flag == flag {", "\t\tfor p.flag&flag != 0 {")], "the last operand climbs through a parent that is decided by only one of its two values")
+mut("sc_last_child_off_by_one", ["C03"], "calAndSetShortCircuit/",
+    [("compiler.go", "\t\t\t\treturn pIdx == idx+1\n", "\t\t\t\treturn pIdx == idx+1 || pIdx == idx+2\n")], "the operand before the last one is treated as the last")
+mut("sc_root_target_not_encoded", ["C01"], "calAndSetShortCircuit/post/targets-in-range",
+    [("compiler.go", "\t\tif f[i] == size-1 {\n\t\t\tn.scIdx = -1", "\t\tif f[i] == size {\n\t\t\tn.scIdx = -1")], "a jump to the root is not encoded as -1")
+mut("sc_if_condition_inherits", ["C03"], "calAndSetShortCircuit/",
+    [("compiler.go", "\t\tif pIdx != -1 && p.getNodeType() == cond && i > pIdx {\n\t\t\tif f[pIdx] != pIdx {", "\t\tif pIdx != -1 && p.getNodeType() == cond {\n\t\t\tif f[pIdx] != pIdx {")], "the condition of an if inherits the jumps of the if expression")
+mut("sc_second_pass_drops_target", ["C01"], "calAndSetShortCircuit/",
+    [("compiler.go", "\t\t\t\tn.flag |= p.flag & scMask\n\t\t\t\tf[i] = f[pIdx]", "\t\t\t\tn.flag |= p.flag & scMask\n\t\t\t\tf[i] = pIdx")], "an if branch jumps to the if node instead of the if node's target")
 # ---- probes of mechanisms that only the bounded tier covers
 mut("reduce_nesting_merges_any_bool_operator", ["C02"], "bnd/",
     [("compiler.go", "\t\tif isAndOpNode(cn) == rootOpType {\n\t\t\tchildren = append(children, child.children...)", "\t\tif isAndOpNode(cn) == rootOpType || len(child.children) == 2 {\n\t\t\tchildren = append(children, child.children...)")], "a two-operand or inside an and (or vice versa) is flattened into its parent")
